@@ -1,5 +1,7 @@
 mod driver;
 mod gen;
+mod h5;
+mod tokcap;
 mod out;
 mod props;
 use serde_json::{json, Value};
@@ -43,6 +45,15 @@ fn main() {
                 _ => { eprintln!("unknown job {job}"); std::process::exit(2); }
             }
         }
+        Some("h5") => {
+            // debugging aid: lh h5 '<html text>'
+            let (toks, fb) = h5::run(args.get(2).map(|s| s.as_str()).unwrap_or(""));
+            for t in toks { println!("{t}"); }
+            println!("fb {}", Value::Array(fb));
+            let (toks, res) = tokcap::capture(args.get(2).map(|s| s.as_bytes()).unwrap_or(b""), &[], true, 31);
+            for t in toks { println!("lol {t}"); }
+            println!("lol res {res}");
+        }
         Some("gen") => {
             // lh gen <job> <tier> <seed> <outdir>
             let job = args.get(2).expect("job");
@@ -62,6 +73,7 @@ fn main() {
                 "c10" => props::mem::job_c10(outdir, tier, seed),
                 "c11" => props::bail::job_c11(outdir, tier, seed),
                 "c13" => props::enc::job_c13(outdir, tier, seed),
+                "c03" => props::whatwg::job_c03(outdir, tier, seed),
                 "c09" => props::lat::job_c09(outdir, tier, seed),
                 "c14" => props::tok::job_c14(outdir, tier, seed),
                 "c16" => props::tok::job_c16(outdir, tier, seed),
